@@ -251,9 +251,8 @@ def remove : Node → Bytes → Except Err (Option Node × Option Bytes × Optio
         else match newRight with
           | none => .ok (some l, none, value, true)         -- right node held value, was removed
           | some nr =>
-            let k' := match newKey with
-              | some x => x
-              | none => nk'
+            -- `if newKey != nil { node.key = newKey }`
+            let k' := newKey.getD nk'
             match balance (calcHeightAndSize (inner k' h s none l nr)) with
             | .error e => .error e
             | .ok m => .ok (some m, none, value, true)
@@ -369,44 +368,49 @@ theorem weight_pushed_le (t : Trav) (k : Bytes) (l r : Node) :
   unfold pushed
   split <;> (rw [weight_append]; split <;> split <;> simp [weight] <;> omega)
 
-/-- `traversal.next`: the next node handed to the caller, and the machine after it -/
-def next (t : Trav) : Option (Node × Trav) :=
-  match hst : t.stack with
+/-- `traversal.next` on the stack `stk` (the parameters are read from `t`): the next
+node handed to the caller and the stack left behind -/
+def nextStack (t : Trav) (stk : List (Node × Bool)) : Option (Node × List (Node × Bool)) :=
+  match stk with
   | [] => none
-  | (node, false) :: rest => some (node, { t with stack := rest })
+  | (node, false) :: rest => some (node, rest)
   | (Node.leaf k v n, true) :: rest =>
     let inr := t.startOrAfter k && t.beforeEnd k
     if t.post then
       -- `t.delayedNodes.push(node, false)` and the final `return t.next()` pops it again
-      if inr then next { t with stack := (Node.leaf k v n, false) :: rest } else next { t with stack := rest }
+      if inr then nextStack t ((Node.leaf k v n, false) :: rest) else nextStack t rest
     else
-      if inr then some (Node.leaf k v n, { t with stack := rest }) else next { t with stack := rest }
+      if inr then some (Node.leaf k v n, rest) else nextStack t rest
   | (Node.inner k h s n l r, true) :: rest =>
     let self := Node.inner k h s n l r
     if t.post then
-      next { t with stack := t.pushed k l r ++ (self, false) :: rest }
+      nextStack t (t.pushed k l r ++ (self, false) :: rest)
     else
-      some (self, { t with stack := t.pushed k l r ++ rest })
-termination_by weight t.stack
+      some (self, t.pushed k l r ++ rest)
+termination_by weight stk
 decreasing_by
-  all_goals simp only [hst, weight, weight_append, Node.count]
+  all_goals simp only [weight, weight_append, Node.count]
   · omega
   · omega
   · omega
   · have := weight_pushed_le t k l r; omega
 
+/-- `traversal.next` -/
+def next (t : Trav) : Option (Node × Trav) :=
+  (t.nextStack t.stack).map fun (n, stk) => (n, { t with stack := stk })
+
 /-- the caller's loop `for node := t.next(); node != nil; node = t.next()`; every
-call of `next` lowers `weight t.stack`, so that many rounds exhaust the machine
+call of `next` lowers `weight`, so that many rounds exhaust the machine
 (`Proofs/C30Iter.lean`) -/
-def runFuel : Nat → Trav → List Node
+def runFuel (t : Trav) : Nat → List (Node × Bool) → List Node
   | 0, _ => []
-  | fuel + 1, t =>
-    match t.next with
+  | fuel + 1, stk =>
+    match t.nextStack stk with
     | none => []
-    | some (n, t') => n :: runFuel fuel t'
+    | some (n, stk') => n :: runFuel t fuel stk'
 
 /-- every node the machine hands out, in order -/
-def run (t : Trav) : List Node := runFuel (weight t.stack) t
+def run (t : Trav) : List Node := t.runFuel (weight t.stack) t.stack
 
 end Trav
 end GnoVerif.C30
